@@ -360,7 +360,7 @@ func (r *realRun) rpcPages(v string, q *Qry, f, t *bidView, cfg pcfg, preWords s
 	if !eqS(all, spec) {
 		kind := diffKind(all, spec)
 		class := "rpc:" + v + ":" + kind
-		if strings.Contains(r.or.Ask("hyp", 1)[0], "snapbad=1") {
+		if strings.Contains(r.or.Ask("hyp", 1)[0], "snapbad=1") || r.snapUnconsumed {
 			class = "stale-snapshot-after-reorg+ungraceful-restart"
 		}
 		r.fail(class, fmt.Sprintf("%s: got %d events %v want %d events %v (%s)", desc(), len(all), shorten(all), len(spec), shorten(spec), kind), false)
